@@ -296,10 +296,10 @@ def ensure_built(profiles):
     logs = {}
     ok_coq, log = build.build_coq()
     logs["coq"] = log[-2000:]
-    ok_drv = False
-    if ok_coq:
-        ok_drv, log = build.build_driver()
-        logs["driver"] = log[-1000:]
+    # the driver is built from the extracted model whenever there is one: when some proof file no longer compiles the model
+    # itself usually still does, and the differential run is what looks for the failing input then
+    ok_drv, log = build.build_driver()
+    logs["driver"] = log[-1000:]
     ok_h = True
     for prof in profiles:
         ok, log = build.build_harness(prof)
@@ -328,8 +328,11 @@ def run_check(mod, tier, seed):
         write_evidence(mod, tier, seed, t0, dict(obligations=1, discharged=0, names=[], axioms=[], problems=["harness build failed"]), [], [], [], 1, {})
         return 1
 
-    audit = audit_proofs(mod.THEOREM_FILE) if ok_coq else dict(
-        obligations=1, discharged=0, names=[], axioms=[], problems=["coq build failed: " + logs.get("coq", "")[-800:]])
+    # the property's own theorem file is compiled in any case; a build failure elsewhere (another property's proofs) is not
+    # held against this property when its own theorems and everything they depend on still check
+    audit = audit_proofs(mod.THEOREM_FILE)
+    if not ok_coq and audit["problems"]:
+        audit["problems"] = audit["problems"] + ["coq build failed: " + logs.get("coq", "")[-800:]]
     if ok_coq and tier == "thorough":
         cp = coqchk_audit(mod.THEOREM_FILE)
         audit["coqchk"] = "ok" if not cp else cp
@@ -505,7 +508,7 @@ def write_evidence(mod, tier, seed, t0, audit, cases, impl, nontrivial, nviol, e
     cov = dict(
         obligations=max(1, audit["obligations"]),
         discharged=audit["discharged"],
-        checker_cmd="cd coq && coq_makefile -f _CoqProject -o Makefile && make -j16 ; coqc -Q . BL %s (Print Assumptions audit)" % mod.THEOREM_FILE,
+        checker_cmd="python3 tools/tables.py (coq/Gen/SourceTables.v from /repo/src) && cd coq && coq_makefile -f _CoqProject -o Makefile && make -k -j16 ; coqc -Q . BL %s (Print Assumptions audit)" % mod.THEOREM_FILE,
         trusted_base=TRUSTED_BASE + getattr(mod, "TRUSTED_EXTRA", []),
         theorems=audit.get("names", []),
         axioms_reported_by_print_assumptions=audit.get("axioms", []),
@@ -534,4 +537,5 @@ TRUSTED_BASE = [
     "the Rust harness harness/src (serialisers, error-code recovery from Display text) built against /repo's working tree with overflow-checks on and debug assertions off",
     "the correspondence check is differential testing: it ties the Gallina model to the Rust code only on the generated and enumerated cases listed under coverage",
     "Python monitors in tools/props restate the specification side for the search for failing inputs",
+    "tools/tables.py: the translator of the source's literal tables (reserved words, single-character tokens, listed spellings, precedences, built-in arities) into coq/Gen/SourceTables.v, and its map of constructor names",
 ]
